@@ -36,10 +36,20 @@ ASSUMPTIONS = [
 ]
 
 
+SAMPLE_ROWS = {
+    'inv': lambda a, r: r['fmt'] == 'rat' and 0 not in a[0],
+    'mulvr': lambda a, r: len(a[2]) == 4,
+    'limit': lambda a, r: len(a[0]) == 3 and r['fmt'] == 'root' and a[1] == (2, 1),
+    'swz': lambda a, r: len(a[0]) == 4 and len(set(a[1])) == 4,
+    'lerp': lambda a, r: a[2] == (3, 4) and len(set(a[0])) > 1 and a[0] != a[1],
+    'cross': lambda a, r: 0 not in r['val'],
+}
+
+
 def consts(groups, ru=(2, 2, 1), rw=(2, 1, 1), k4=2, np_=8, nt=4, big=(1, 0), seed=1, limit_square=True):
     return {'Groups': '{' + ', '.join('"%s"' % g for g in groups) + '}',
             'RU2': ru[0], 'RU3': ru[1], 'RU4': ru[2], 'RW2': rw[0], 'RW3': rw[1], 'RW4': rw[2], 'K4': k4,
-            'NP': np_, 'NT': nt, 'BigLo': big[0], 'BigHi': big[1], 'Seed': seed % 4096,
+            'NP': np_, 'NT': nt, 'BigLo': big[0], 'BigHi': big[1], 'Seed': seed,
             'Vec3LimitSquare': 'TRUE' if limit_square else 'FALSE'}
 
 
@@ -60,7 +70,10 @@ def table_stats(res, g, acc):
         post = g.states[g.out[i][0][2]]
         op, a, r = pre['op'], pre['args'], post['res']
         acc['cases'] += 1
-        acc['nontrivial'] += nontrivial(pre, post)
+        key = hash((op, a))
+        if key not in acc['seen']:            # the same row may be enumerated by two runs (dense matrices 1..NP)
+            acc['seen'].add(key)
+            acc['nontrivial'] += nontrivial(pre, post)
         acc['per_op'][op] += 1
         if r['cls'] == 'exc':
             acc['expected_exceptions'][r['fmt']] += 1
@@ -95,25 +108,39 @@ def run_table(res, name, c, acc, procs=None):
         if len(g.out[i]) != 1:
             raise common.MachineryError('case without exactly one Eval successor: %r' % (g.states[i],))
     table_stats(res, g, acc)
-    st = rp.run_paths(g, lambda: VecMathAdapter(desper), rp.edge_paths(g), chunk=500, procs=procs)
+    # every row is executed even after the first divergences: the evidence must say which operations diverge
+    st = rp.run_paths(g, lambda: VecMathAdapter(desper), rp.edge_paths(g), chunk=500, procs=procs, max_violations=10 ** 9)
+    n0 = len(res.violations)
     res.absorb(st, name + ':every-row', g)
-    if len(res.samples) < 4:
+    for k in range(n0, len(res.violations)):          # say which row failed, not just "Eval"
+        d = res.violations[k][1]
+        if 'pre_state' in d:
+            res.violations[k] = ('%s: %s%s  expected %s  observed %s' % (name, d['pre_state']['op'], d['pre_state']['args'],
+                                 list(d['expected'].values())[0], list(d['observed'].values())[0]), d)
+    if st.n_violations:
         ad = VecMathAdapter(desper)
-        seen = set()
+        div = res.cov.setdefault('diverging_rows_by_operation', {})
         for i in g.init:
             pre, post = g.states[i], g.states[g.out[i][0][2]]
-            if pre['op'] in seen or not nontrivial(pre, post) or len(res.samples) >= 4:
-                continue
-            if pre['op'] in ('inv', 'mulvr', 'lerp', 'limit', 'swz', 'cross'):
-                seen.add(pre['op'])
-                res.sample({'op': pre['op'], 'args': to_json(pre['args']), 'expected_by_TLC': to_json(post['res']),
-                            'observed_with_Fractions': json.loads(json.dumps(to_json(ad.call(pre['op'], pre['args'], True)), default=str))})
+            obs, exp = ad.step('Eval', (), pre), ad.expect('Eval', (), pre, post)
+            if not all(exp[f](obs[f]) for f in exp):
+                k = '%s/%s' % (pre['op'], '+'.join(type(ad.build(kd, v, False)).__name__ for kd, v in zip(OPS[pre['op']][0], pre['args'])))
+                div[k] = div.get(k, 0) + 1
+    ad = VecMathAdapter(desper)
+    for i in g.init:          # one telling row per operation family as sample
+        pre, post = g.states[i], g.states[g.out[i][0][2]]
+        want = SAMPLE_ROWS.get(pre['op'])
+        if want and pre['op'] not in acc['sampled'] and nontrivial(pre, post) and want(pre['args'], post['res']):
+            acc['sampled'].add(pre['op'])
+            obs = ad.call(pre['op'], pre['args'], True)
+            res.sample({'op': pre['op'], 'args': to_json(pre['args']), 'expected_by_TLC': to_json(post['res']),
+                        'observed_with_Fraction_operands': json.loads(json.dumps(to_json(obs), default=str))})
     return st
 
 
 def run(res):
     thorough = res.tier == 'thorough'
-    acc = _Acc({'per_op': Counter(), 'expected_exceptions': Counter(), 'cofactor_hits': Counter(), 'cofactor_isolated': Counter()})
+    acc = _Acc({'sampled': set(), 'seen': set(), 'per_op': Counter(), 'expected_exceptions': Counter(), 'cofactor_hits': Counter(), 'cofactor_isolated': Counter()})
     res.assumptions += ASSUMPTIONS
     if not thorough:
         run_table(res, 'c18_quick', consts(ALL_GROUPS, big=(1, 100), seed=res.seed), acc)
@@ -131,7 +158,7 @@ def run(res):
     cof_iso = sum(1 for k in range(16) if acc['cofactor_isolated'][k])
     if cof_hit < 16 or cof_iso < 16:
         raise common.MachineryError('inverse table does not exercise every cofactor: %d/16 hit, %d/16 isolated' % (cof_hit, cof_iso))
-    res.cov['table'] = {k: (dict(sorted(v.items())) if isinstance(v, Counter) else v) for k, v in acc.items()}
+    res.cov['table'] = {k: (dict(sorted(v.items())) if isinstance(v, Counter) else v) for k, v in acc.items() if k not in ('sampled', 'seen')}
     res.cov['table']['cofactors_exercised'] = '%d/16 (min %d rows each), in isolation %d/16' % (
         cof_hit, min(acc['cofactor_hits'][k] for k in range(16)), cof_iso)
     res.cov['operations_bound'] = sorted(OPS)
